@@ -3,7 +3,7 @@ import json
 import os
 import re
 
-from . import common, ip_checks, jun_checks, iptext_checks, secret_checks, text_checks
+from . import common, ip_checks, jun_checks, iptext_checks, secret_checks, text_checks, cli_checks, files_checks
 from .common import LEAN, VERIF, Infra
 
 TRUSTED_BASE = [
@@ -258,5 +258,21 @@ PROPS = {
     "C13": text_prop("C13", [text_checks.pipeline_corr, text_checks.determinism_scope, text_checks.hashseed_scope]),
     "C14": text_prop("C14", [text_checks.pipeline_corr, text_checks.total_scope]),
     "C15": text_prop("C15", [text_checks.pipeline_corr, text_checks.compose_scope]),
+    "C16": {"modules": ["Netconan.Props.C16"], "scopes": [files_checks.files_scope],
+            "checker_cmd": "cd lean && lake build Netconan.Props.C16 && lake env lean <#print axioms audit>",
+            "rule": "generated directory trees in a scratch directory (nesting, names with spaces / Unicode / leading dash, dot-files, dot-directories, empty "
+                    "sub-directories, CRLF files, files without final newline, a pre-existing output directory) x random feature subsets; directory API, "
+                    "trailing-separator spelling, command line, single-file API, FileAnonymizer.anonymize_file and the stream API compared byte for byte; "
+                    "failing files (undecodable bytes early and after 8 KiB of password lines, output path occupied by a directory) against the run "
+                    "without them; distinct_nontrivial counts distinct (round, tree size) keys",
+            "assumptions": ["os.walk order, Unicode file names, permissions and pre-existing directories are runtime behaviour: exercised, not proved",
+                            "the model sees a run as the list of files in walk order with their decoded text or a failure mark"]},
+    "C19": {"modules": ["Netconan.Props.C19", "Netconan.Props.C04Data"], "scopes": [cli_checks.cli_scope],
+            "checker_cmd": "cd lean && lake build Netconan.Props.C19 && lake env lean <#print axioms audit>",
+            "rule": "netconan.netconan.main in-process with anonymize_files recorded: every validation-relevant option (-a, -u, -s, -d, -p) in {absent, command line, "
+                    "config file, both} exhaustively (4^5), plus seeded vectors over all 14 options incl. empty/out-of-range/non-numeric host bits and empty "
+                    "input/output, compared with the Lean decision function; real runs of rejected combinations check that nothing is written; "
+                    "distinct_nontrivial counts distinct encoded argument vectors",
+            "assumptions": ["argparse / configargparse are abstracted by 'which source gave which value'; their parsing is exercised, not modelled"]},
     "C17": ip_prop("C17", [ip_checks.core_scope, ip_checks.cli_scope, ip_checks.big_history]),
 }
